@@ -82,6 +82,36 @@ def run_item(item):
         H.decide(item, path.split("pyModeS.")[1],
                  lambda: f(fr.msg, SymReal(lat_ref), SymReal(lon_ref)),
                  lambda c: H.real_call(path, c["msg"], c["lat_ref"], c["lon_ref"]), conc, post)
+    # stability (two-copy): a second reference anywhere in the same admissible box gives the identical result
+    lat_r2, lon_r2 = z3.Reals("lat_ref2 lon_ref2")
+    item.declare(lat_r2, lon_r2)
+    item.real_inputs += [lat_r2, lon_r2]
+    dl2 = lon_r2 - lon
+    item.assume(lat_r2 >= -90, lat_r2 <= 90, lon_r2 >= -180, lon_r2 <= 180,
+                lat_r2 - lat <= S.Q(ml), lat - lat_r2 <= S.Q(ml),
+                z3.Or([z3.And(dl2 + k <= S.Q(mo), dl2 + k >= -S.Q(mo)) for k in (-360, 0, 360)]))
+    path, f = targets[0]
+    conc2 = lambda m: dict(conc(m), lat_ref2=L.fval(m, lat_r2), lon_ref2=L.fval(m, lon_r2))
+
+    def two():
+        return f(fr.msg, SymReal(lat_ref), SymReal(lon_ref)), f(fr.msg, SymReal(lat_r2), SymReal(lon_r2))
+
+    def real_two(c):
+        a = H.real_call(path, c["msg"], c["lat_ref"], c["lon_ref"])
+        b = H.real_call(path, c["msg"], c["lat_ref2"], c["lon_ref2"])
+        if a[0] != "ret" or b[0] != "ret":
+            return a if a[0] != "ret" else b
+        return ("ret", (a[1], b[1]))
+
+    def post2(kind_, v, ctx):
+        if kind_ != "ret" or not isinstance(v, tuple) or len(v) != 2:
+            return False
+        (la1, lo1), (la2, lo2) = v
+        if ctx.conc is not None:
+            return abs(la1 - la2) <= 1e-9 and float(S.circ_dist(Fraction(lo1), Fraction(lo2))) <= 1e-9
+        return z3.And(H.real_close(la1, H.to_real_term(la2), L.TOL),
+                      S.circ_close(H.to_real_term(lo1), H.to_real_term(lo2), L.TOL))
+    H.decide(item, "stable", two, real_two, conc2, post2)
     item.sat_witness("inside", [])
 
 
